@@ -44,6 +44,26 @@ impl D {
             D::Bernoulli(p) => Box::new(Bernoulli::new(p)),
         }
     }
+    /// the parameters in the order `new` and `update` take them
+    pub fn params(&self) -> Vec<f64> {
+        match *self { D::Normal(a, b) | D::Uniform(a, b) | D::Gumbel(a, b) | D::Pareto(a, b) | D::Gamma(a, b) | D::Beta(a, b) => vec![a, b],
+            D::Exponential(a) | D::T(a) | D::Poisson(a) | D::Bernoulli(a) => vec![a], D::ChiSquared(k) => vec![k as f64],
+            D::Binomial(n, p) => vec![n as f64, p], D::DiscreteUniform(a, b) => vec![a as f64, b as f64] }
+    }
+    /// another valid parameter setting of the same family
+    pub fn other(&self) -> D {
+        match *self { D::Normal(..) => D::Normal(1.0, 2.0), D::Uniform(..) => D::Uniform(-1.0, 1.0), D::Exponential(..) => D::Exponential(2.5), D::Gumbel(..) => D::Gumbel(1.0, 2.0),
+            D::Pareto(..) => D::Pareto(3.0, 2.0), D::Gamma(..) => D::Gamma(2.5, 1.5), D::Beta(..) => D::Beta(2.5, 1.5), D::ChiSquared(..) => D::ChiSquared(7), D::T(..) => D::T(5.0),
+            D::Poisson(..) => D::Poisson(3.5), D::Binomial(..) => D::Binomial(12, 0.3), D::DiscreteUniform(..) => D::DiscreteUniform(-3, 4), D::Bernoulli(..) => D::Bernoulli(0.3) }
+    }
+    /// the same parameter setting reached through `update` from another one: "every valid parameter setting" does not depend on how the object got there
+    pub fn build_via(&self, via_update: bool) -> Box<dyn Distribution1D> {
+        if !via_update { return self.build(); }
+        let mut b = self.other().build(); b.update(&self.params()); b
+    }
+    pub fn describe_via(&self, via_update: bool) -> String {
+        if via_update { format!("{{ let mut d = {}; d.update(&{:?}); d }}", self.other().describe(), self.params()) } else { self.describe() }
+    }
     pub fn discrete(&self) -> bool { matches!(self, D::Poisson(..) | D::Binomial(..) | D::DiscreteUniform(..) | D::Bernoulli(..)) }
     /// a point mass (degenerate parameters): every draw must equal this value
     pub fn atom(&self) -> Option<f64> {
@@ -160,24 +180,27 @@ pub fn oracle(tier: &str, seed: u64) -> (u64, Vec<Finding>) {
 
     // 1. every regime: termination, support, DKW band
     let mut hung: std::collections::BTreeSet<&'static str> = Default::default();
-    for d in regimes(thorough) {
+    // every second regime (both ways in the thorough tier) the object is reached through `update` from another valid setting
+    let mut plan: Vec<(D, bool)> = vec![];
+    for (i, d) in regimes(thorough).into_iter().enumerate() { if thorough { plan.push((d.clone(), false)); plan.push((d, true)); } else { plan.push((d, i % 2 == 1)); } }
+    for (d, via) in plan {
         let sd = r.next();
-        let input = format!("alea::set_seed({}); {}.sample_n({})", sd, d.describe(), n);
+        let input = format!("alea::set_seed({}); {}.sample_n({})", sd, d.describe_via(via), n);
         if hung.contains(regime_tag(&d)) { continue; }
         crumb(&input);
         sink.tried += 1;
         // probe: a few draws must come back quickly
         let dd = d.clone();
-        match watchdog(3.0, move || { alea::set_seed(sd); let s = dd.build(); (0..50).map(|_| s.sample()).collect::<Vec<f64>>() }) {
+        match watchdog(3.0, move || { alea::set_seed(sd); let s = dd.build_via(via); (0..50).map(|_| s.sample()).collect::<Vec<f64>>() }) {
             None => { hung.insert(regime_tag(&d)); hung.insert(d.name());
                 sink.fail(format!("{}:nonterminating", d.name()), 1.0, "sampling did not return within 3 s for 50 draws (the property requires termination)".into(),
-                          format!("alea::set_seed({}); {}.sample()", sd, d.describe())); continue; }
+                          format!("alea::set_seed({}); {}.sample()", sd, d.describe_via(via))); continue; }
             Some(Err(e)) => { sink.fail(format!("{}:panic", d.name()), 1.0, format!("valid parameters, but sampling panicked: {}", e), input.clone()); continue; }
             Some(Ok(_)) => {}
         }
         let dd = d.clone();
         let limit = if thorough { 600.0 } else { 120.0 };
-        let xs = match watchdog(limit, move || { alea::set_seed(sd); dd.build().sample_n(n) }) {
+        let xs = match watchdog(limit, move || { alea::set_seed(sd); dd.build_via(via).sample_n(n) }) {
             None => { hung.insert(regime_tag(&d)); hung.insert(d.name()); sink.fail(format!("{}:nonterminating", d.name()), 1.0, format!("sample_n({}) did not return within {} s", n, limit), input.clone()); continue; }
             Some(Err(e)) => { sink.fail(format!("{}:panic", d.name()), 1.0, format!("valid parameters, but sample_n panicked: {}", e), input.clone()); continue; }
             Some(Ok(v)) => v,
